@@ -48,7 +48,7 @@ TraceReset ==
     /\ files' = FilesOf(Ev)
     /\ ack' = [u \in Users |-> AckOf(FilesOf(Ev), u)]
     /\ cl' = [c \in Clients |-> [pc |-> "idle", op |-> NoOp, n |-> 0]]
-    /\ disp' = Idle /\ owed' = 0
+    /\ disp' = Idle /\ owed' = 0 /\ dflt' = Default
     /\ cres' = [c \in Clients |-> NoRes] /\ upbag' = {}
     /\ UNCHANGED <<chans, notifyQ, upq, sem>>
 
@@ -66,7 +66,7 @@ DispFreeOrSkippedUpgrade == \/ DispFree \/ disp.pc = "upsend"
                             \/ (disp.pc = "upexec" /\ ~PolicyPass(disp.req.op.u, disp.req.op.p))
 
 TraceExecClient ==
-    /\ IsEvent("exec") /\ DispFreeOrSkippedUpgrade
+    /\ IsEvent("exec") /\ DispFreeOrSkippedUpgrade /\ ~Ev.io
     /\ \E c \in Clients :
           /\ cl[c].pc = "waiting" /\ cl[c].op = OpOf(Ev)
           /\ ExecStep([c |-> c, op |-> OpOf(Ev)])
@@ -74,6 +74,16 @@ TraceExecClient ==
           /\ (Ev.k = "auth" /\ Ev.ok) => (disp'.res.upg = Ev.upg)
           /\ cl' = [cl EXCEPT ![c].pc = "executed"]
           /\ cres' = [cres EXCEPT ![c] = disp'.res]
+    /\ UNCHANGED <<chans, notifyQ, upq, sem, upbag>>
+
+\* the library refused the write with an I/O error (the driver had made the work area unusable): nothing changes
+TraceExecClientIOFail ==
+    /\ IsEvent("exec") /\ DispFreeOrSkippedUpgrade /\ Ev.io /\ ~Ev.ok
+    /\ \E c \in Clients :
+          /\ cl[c].pc = "waiting" /\ cl[c].op = OpOf(Ev)
+          /\ ExecStepIOFail([c |-> c, op |-> OpOf(Ev)])
+          /\ cl' = [cl EXCEPT ![c].pc = "executed"]
+          /\ cres' = [cres EXCEPT ![c] = NoRes]
     /\ UNCHANGED <<chans, notifyQ, upq, sem, upbag>>
 
 TraceUpSent ==
@@ -100,10 +110,16 @@ TraceUpBegin ==
     /\ UNCHANGED <<chans, files, cl, notifyQ, upq, sem, ack, owed, cres>>
 
 \* its "exec.update": the re-check passed and the record was rewritten (or the policy refused)
-TraceUpgradeExec ==
-    /\ IsEvent("exec") /\ disp.pc = "upexec"
+TraceUpgradeExecIOFail ==
+    /\ IsEvent("exec") /\ disp.pc = "upexec" /\ Ev.io /\ ~Ev.ok
     /\ OpOf(Ev) = disp.req.op
-    /\ UpgradeRecheck => (AuthOK(files, Ev.u, Ev.p) /\ files[Ev.u].set # Default)
+    /\ ExecStepIOFail(disp.req)
+    /\ UNCHANGED <<chans, cl, notifyQ, upq, sem, cres, upbag>>
+
+TraceUpgradeExec ==
+    /\ IsEvent("exec") /\ disp.pc = "upexec" /\ ~Ev.io
+    /\ OpOf(Ev) = disp.req.op
+    /\ Recheck(files, Ev.u, Ev.p)
     /\ ExecStep(disp.req)
     /\ disp'.res.ok = Ev.ok
     /\ UNCHANGED <<chans, cl, notifyQ, upq, sem, cres, upbag>>
@@ -111,9 +127,9 @@ TraceUpgradeExec ==
 \* or "upgrade.skip": the re-check refused an outdated request
 TraceUpgradeSkip ==
     /\ IsEvent("upskip") /\ disp.pc = "upexec"
-    /\ UpgradeRecheck
+    /\ UpgradeRecheck = "full"
     /\ Ev.u = disp.req.op.u /\ Ev.p = disp.req.op.p
-    /\ ~(AuthOK(files, Ev.u, Ev.p) /\ files[Ev.u].set # Default)
+    /\ ~(AuthOK(files, Ev.u, Ev.p) /\ files[Ev.u].set # dflt)
     /\ disp' = [disp EXCEPT !.pc = "done"]
     /\ UNCHANGED <<chans, files, cl, notifyQ, upq, sem, ack, owed, cres, upbag>>
 
@@ -156,9 +172,21 @@ TraceIdle ==
     /\ Ev.tmpempty
     /\ UNCHANGED <<vars, cres, upbag>>
 
-TraceNext ==
-    \/ TraceReset \/ TraceCall \/ TraceExecClient \/ TraceUpSent \/ TraceUpDrop
+\* "reload.ok": the dispatcher, between two requests, switched to a configuration whose default set is Ev.n
+TraceReloaded ==
+    /\ IsEvent("reloadok") /\ DispFreeOrSkippedUpgrade
+    /\ dflt' = Ev.n
+    /\ UNCHANGED <<chans, disp, files, cl, notifyQ, upq, sem, ack, owed, cres, upbag>>
+
+TraceCore ==
+    \/ TraceCall \/ TraceExecClient \/ TraceUpSent \/ TraceUpDrop
+    \/ TraceExecClientIOFail \/ TraceUpgradeExecIOFail
     \/ TraceUpBegin \/ TraceUpgradeExec \/ TraceUpgradeSkip \/ TraceNotify \/ TraceRet \/ TraceRetRefusedByPolicy \/ TraceIdle
+
+\* "reload.fail": the configuration on disk was refused, everything stays as it is
+TraceReloadRefused == IsEvent("reloadfail") /\ UNCHANGED <<vars, cres, upbag>>
+
+TraceNext == (TraceCore /\ UNCHANGED dflt) \/ TraceReset \/ TraceReloaded \/ TraceReloadRefused
 
 TraceInit ==
     /\ Init /\ l = 1
